@@ -291,6 +291,10 @@ func vfStatusFields(e vfErrSpec, mal string) (status string, msg *string, detail
 				m := vfPctEncode(e.Msg)
 				msg = &m
 			}
+		case "details-message-edge-lf", "details-message-edge-nbsp":
+			st.Message = "verif message" + map[string]string{"details-message-edge-lf": "\n", "details-message-edge-nbsp": "\u00a0"}[mal]
+			m := vfPctEncode("verif message")
+			msg = &m
 		case "details-with-ok":
 			status = "0"
 			st.Code = 0
@@ -506,6 +510,8 @@ var vfStatusMals = map[string]string{
 	"message-unescaped-del": "should be percent-encoded", "message-with-ok": "non-empty 'grpc-message' value with zero", "message-multiple": "multiple 'grpc-message'",
 	"details-padded": "with padding", "details-not-base64": "incorrectly-encoded 'grpc-status-details-bin'", "details-not-proto": "un-parseable",
 	"details-code-disagrees": "disagrees with 'grpc-status'", "details-message-disagrees": "disagrees with 'grpc-message'", "details-with-ok": "non-empty details",
+	// the two messages differ only by white space at the edge that is content (a line feed, U+00A0), not padding
+	"details-message-edge-lf": "disagrees with 'grpc-message'", "details-message-edge-nbsp": "disagrees with 'grpc-message'",
 }
 
 type vfC13Case struct {
@@ -1260,6 +1266,9 @@ type vfC13BinE2E struct {
 	Bad      string `json:"bad"`    // the offending value
 	Cancel   bool   `json:"cancel"` // server-stream / bidi: cancelled after the first response
 	H1       bool   `json:"h1"`
+	// Err: the call ends with an error (for unary and client-stream calls the client then gets headers and trailers
+	// as one bag of error metadata)
+	Err bool `json:"err,omitempty"`
 }
 
 func vfC13BinE2ECheck(c vfC13BinE2E) error {
@@ -1292,6 +1301,11 @@ func vfC13BinE2ECheck(c vfC13BinE2E) error {
 	}
 	unaryDef := &conformancev1.UnaryResponseDefinition{ResponseHeaders: hdrs, ResponseTrailers: trls, Response: &conformancev1.UnaryResponseDefinition_ResponseData{ResponseData: []byte("ok")}}
 	streamDef := &conformancev1.StreamResponseDefinition{ResponseHeaders: hdrs, ResponseTrailers: trls, ResponseData: [][]byte{[]byte("r0"), []byte("r1"), []byte("r2")}}
+	if c.Err {
+		rpcErr := &conformancev1.Error{Code: conformancev1.Code_CODE_INVALID_ARGUMENT, Message: proto.String("verif: no")}
+		unaryDef.Response = &conformancev1.UnaryResponseDefinition_Error{Error: rpcErr}
+		streamDef.Error = rpcErr
+	}
 	cancelled := false
 	switch c.Stream {
 	case "unary":
@@ -1325,7 +1339,7 @@ func vfC13BinE2ECheck(c vfC13BinE2E) error {
 	if result == nil {
 		return verifkit.Violf("bin-e2e-client-failed", "reference client reported: %v", resp.GetError())
 	}
-	what := fmt.Sprintf("%v/%s (cancelled after the first response: %v, %v)", conformancev1.Protocol(c.Protocol), c.Stream, cancelled, version)
+	what := fmt.Sprintf("%v/%s (cancelled after the first response: %v, ends with an error: %v, %v)", conformancev1.Protocol(c.Protocol), c.Stream, cancelled, c.Err, version)
 	flagged := false
 	for _, f := range result.Feedback {
 		if strings.Contains(strings.ToLower(f), "x-custom-bin") {
@@ -1354,11 +1368,12 @@ func TestVerifC13BinE2E(t *testing.T) {
 			if c.Stream == "server-stream" || c.Stream == "bidi" {
 				c.Cancel = rapid.IntRange(0, 2).Draw(t, "cancel") == 0
 			}
+			c.Err = !c.Cancel && rapid.IntRange(0, 2).Draw(t, "err") == 0
 			return c
 		},
 		Check: vfC13BinE2ECheck,
 		Classify: func(c vfC13BinE2E) ([]string, bool) {
-			return []string{conformancev1.Protocol(c.Protocol).String(), c.Stream, "bad-" + c.Where, fmt.Sprintf("cancelled:%v", c.Cancel)}, c.Where != "none"
+			return []string{conformancev1.Protocol(c.Protocol).String(), c.Stream, "bad-" + c.Where, fmt.Sprintf("cancelled:%v", c.Cancel), fmt.Sprintf("error:%v", c.Err)}, c.Where != "none"
 		},
 	})
 }
